@@ -56,6 +56,63 @@ class _FStringToFormat(ast.NodeTransformer):
         return ast.copy_location(call, node)
 
 
+_CONST_NAME = None
+
+
+def _inline_module_string_constants(tree):
+    """
+    `_OPTIONAL_PREFIX = "Optional["` hoisted to module level and used by name is the same program as the literal
+    written in place. Every module-level NAME in CONSTANT_CASE (optionally _private) that is bound exactly once in
+    the whole module, to a string literal, and is never a parameter / global-declared / re-assigned anywhere, is
+    read as that literal wherever the module loads it. (Only within the defining module: an imported constant keeps
+    its name.)
+    """
+    import re
+
+    global _CONST_NAME
+    if _CONST_NAME is None:
+        _CONST_NAME = re.compile(r"^_?[A-Z][A-Z0-9_]*$")
+    cands = {}
+    for s in tree.body:
+        if isinstance(s, ast.Assign) and len(s.targets) == 1 and isinstance(s.targets[0], ast.Name):
+            t, v = s.targets[0], s.value
+        elif isinstance(s, ast.AnnAssign) and isinstance(s.target, ast.Name) and s.value is not None:
+            t, v = s.target, s.value
+        else:
+            continue
+        if _CONST_NAME.match(t.id) and isinstance(v, ast.Constant) and isinstance(v.value, str):
+            cands.setdefault(t.id, []).append(v)
+    if not cands:
+        return
+    stores = {}
+    for n in ast.walk(tree):
+        if isinstance(n, ast.Name) and isinstance(n.ctx, (ast.Store, ast.Del)):
+            stores[n.id] = stores.get(n.id, 0) + 1
+        elif isinstance(n, ast.arg):
+            stores[n.arg] = stores.get(n.arg, 0) + 2
+        elif isinstance(n, (ast.Global, ast.Nonlocal)):
+            for nm in n.names:
+                stores[nm] = stores.get(nm, 0) + 2
+        elif isinstance(n, ast.alias):
+            nm = (n.asname or n.name).split(".")[0]
+            stores[nm] = stores.get(nm, 0) + 2
+        elif isinstance(n, (ast.FunctionDef, ast.AsyncFunctionDef, ast.ClassDef)):
+            stores[n.name] = stores.get(n.name, 0) + 2
+        elif isinstance(n, ast.ExceptHandler) and n.name:
+            stores[n.name] = stores.get(n.name, 0) + 2
+    consts = {k: v[0] for k, v in cands.items() if len(v) == 1 and stores.get(k) == 1}
+    if not consts:
+        return
+
+    class Inl(ast.NodeTransformer):
+        def visit_Name(self, n):
+            if isinstance(n.ctx, ast.Load) and n.id in consts:
+                return ast.copy_location(ast.Constant(value=consts[n.id].value), n)
+            return n
+
+    Inl().visit(tree)
+
+
 class Mod(object):
     """One parsed module"""
 
@@ -79,6 +136,7 @@ class Mod(object):
         self.is_test = ".tests" in name
         self.source = source
         self.tree = _FStringToFormat().visit(ast.parse(source, filename=path))
+        _inline_module_string_constants(self.tree)
         ast.fix_missing_locations(self.tree)
         self.top = {}
         self.parents = {}
